@@ -145,4 +145,17 @@ pub fn hash_file<P: AsRef<Path>>(path: P) -> Result<RawFuzzyHash, GeneratorOrIOE
     hash_stream_common(&mut generator, &mut file)
 }
 
+/// (verification hook) Public forwarder to the common part of
+/// [`hash_stream()`] and [`hash_file()`] (only with `--cfg a4lg_ffuzzy_verif`).
+///
+/// It allows driving the reader loop with a generator on which the fixed
+/// input size is already declared, without a real file.
+#[cfg(a4lg_ffuzzy_verif)]
+pub fn verif_hash_stream_with<R: Read>(
+    generator: &mut Generator,
+    reader: &mut R,
+) -> Result<RawFuzzyHash, GeneratorOrIOError> {
+    hash_stream_common(generator, reader)
+}
+
 mod tests;
